@@ -85,7 +85,7 @@ func countNotes(f *smfdec.File) int {
 }
 
 func checkC02(c *core.Ctx) {
-	c.Rule("random sequences of chords and rests (rests leading, inner, consecutive up to 5, trailing; 1..4 fractions per instance with numerators 1..64 and denominators incl. primes and non-divisors of the resolution; repeated chords; settings on rests; 1..4 tracks), " +
+	c.Rule("random sequences of chords and rests (rests leading, inner, consecutive up to 5, trailing; 1..4 fractions per instance with numerators 1..64 and denominators incl. primes and non-divisors of the resolution, sometimes 5..9 fractions whose denominators multiply beyond 64 bits; text, lyric and marker metadata anywhere; repeated chords; settings on rests; 1..4 tracks), " +
 		"a deterministic list of exactly-halfway values and a list of adversarial near-halfway values; every note-on must sit at its instance start and every note-off at start+round(T*sum) computed in exact rationals (either neighbour at exact halves, tracked as a set), nothing may sound in a rest, releases precede strikes of the same key; " +
 		"non-trivial = piece with a rest, an instance with >= 2 fractions and a denominator not dividing T; distinct by the sequence of (kind, exact duration)")
 	c.Assume("math/big exact rationals", "smfdec", "T is read from the file header", "instances shorter than 2 ticks are not generated (a zero-length chord has no observable onset group)")
@@ -123,6 +123,8 @@ func checkC02(c *core.Ctx) {
 			}
 			if r.Intn(6) == 0 {
 				in.Values = append([]model.Frac(nil), model.HalfwayValues[r.Intn(len(model.HalfwayValues))]...)
+			} else if r.Intn(12) == 0 {
+				in.Values = model.ManyFractions(r)
 			} else {
 				in.Values = model.RandValues(r)
 			}
@@ -132,8 +134,14 @@ func checkC02(c *core.Ctx) {
 			if r.Intn(10) == 0 {
 				in.Key = model.RandKey(r)
 			}
-			if r.Intn(10) == 0 {
-				in.Meta = map[string]string{"txt": model.RandText(r)}
+			if r.Intn(6) == 0 {
+				// one or two of the three text kinds (each is written by its own code path)
+				in.Meta = map[string]string{}
+				for _, k := range []string{"txt", "lic", "mrk"} {
+					if r.Intn(2) == 0 {
+						in.Meta[k] = model.RandText(r)
+					}
+				}
 			}
 			p.Inst = append(p.Inst, in)
 		}
